@@ -8,7 +8,7 @@
    successful merge of a permuted list returns the same types up to order is observed per run, not proved
    (relation maps would have to be compared up to Go map order). *)
 From Coq Require Import Permutation.
-From Verif Require Import Base.Str Base.Outcome Model.Ast Model.Merge Spec.MergeSpec Proofs.MergeProofs Proofs.MergeIff.
+From Verif Require Import Base.Str Base.Outcome Model.Ast Model.Merge Spec.MergeSpec Proofs.MergeProofs Proofs.MergeIff Proofs.MergeWf.
 
 Theorem C12_function_of_the_list : forall fs fs' v v', fs = fs' -> v = v' -> merge fs v = merge fs' v'.
 Proof. intros; subst; reflexivity. Qed.
@@ -27,3 +27,8 @@ Proof. exact conflict_free_perm. Qed.
 Theorem C12_verdict_independent_of_file_order : forall fs fs' v,
   wf_modules fs -> Permutation fs fs' -> ((exists m, merge fs v = Ok m) <-> (exists m', merge fs' v = Ok m')).
 Proof. exact merge_success_order_independent. Qed.
+
+(* 5. for every list of files with distinct names, no hypothesis about the parser left *)
+Theorem C12_verdict_independent_of_file_order_for_all_files : forall fs fs' v,
+  NoDup (map mf_name fs) -> Permutation fs fs' -> ((exists m, merge fs v = Ok m) <-> (exists m', merge fs' v = Ok m')).
+Proof. exact merge_order_unconditional. Qed.
